@@ -1057,9 +1057,11 @@ class QueryBuilder(Selectable, Term):  # type:ignore[misc]
         self._on_conflict_wheres = _replace(self._on_conflict_wheres)
         self._on_conflict_do_update_wheres = _replace(self._on_conflict_do_update_wheres)
 
-        if current_table in self._select_star_tables:
-            self._select_star_tables.remove(current_table)
-            self._select_star_tables.add(cast(Table, new_table))
+        # (compared one by one: a join may have given a member its automatic alias after it was hashed into the set)
+        self._select_star_tables = {
+            cast(Table, new_table) if table == current_table else table
+            for table in self._select_star_tables
+        }
 
     @builder
     def with_(  # type:ignore[return]
@@ -1411,8 +1413,9 @@ class QueryBuilder(Selectable, Term):  # type:ignore[misc]
             # Do not add select terms after a star is selected
             return
 
-        if term.table in self._select_star_tables:
+        if any(term.table == table for table in self._select_star_tables):
             # Do not add select terms for table after a table star is selected
+            # (compared one by one: a join may have given the table its automatic alias after it was hashed into the set)
             return
 
         if isinstance(term, Star):
